@@ -209,7 +209,7 @@ func clientFlow(uc *tls.UConn, cku bool) (string, error) {
 	if err := uc.Handshake(); err != nil {
 		return "handshake", err
 	}
-	if cku {
+	if cku && uc.ConnectionState().Version == tls.VersionTLS13 {
 		if err := tls.VerifFlightSendKeyUpdate(uc.Conn, true); err != nil {
 			return "keyupdate", err
 		}
@@ -228,7 +228,7 @@ func serverFlow(srv *tls.Conn, sku bool) (string, error) {
 	if err := srv.Handshake(); err != nil {
 		return "handshake", err
 	}
-	if sku {
+	if sku && srv.ConnectionState().Version == tls.VersionTLS13 {
 		if err := tls.VerifFlightSendKeyUpdate(srv, true); err != nil {
 			return "keyupdate", err
 		}
